@@ -9,6 +9,8 @@ WIDE_KEYS = KEYS + [f'z{i}' for i in range(80)]      # enough distinct keys for 
 QUIET_OPS = {'tget', 'tmem', 'x', 'lookup', 'pub', 'perr', 'lock', 'trylock', 'winc', 'wthrow', 'unguarded', 'rd', 'rdarg', 'spawn', 'join', 'selfjoin', 'disabled'}
 ERRNOS = ['0', 'EINVAL', 'EDEADLK', 'EBUSY', 'EPERM', 'ESRCH', 'EAGAIN']
 NK = 6
+# primitives whose return value `perr` replaces: the four synchronisation wrappers, pthread_create under Thread_Call, pthread_kill under Thread_Stop
+PFNS = ['lock', 'trylock', 'unlock', 'join', 'create', 'stop']
 
 def gen_prog(rng, depth, size):
     if size <= 1 or depth <= 0:
@@ -219,7 +221,7 @@ def gen_schedule(rng, nworkers, nevents, mode, flavour, managed=0.0, foreign_mar
                 # a result object for the joiner: a root (an object made with plain `new` is finalised by the thread's teardown
                 # before join returns: KF-C13-join-result-finalised), never deleted afterwards
                 k = rng.choice(r); t.pinned.add(k); out(f'{T} pubo {k}'); n += 1
-        elif op == 'perr': out(f"{T} perr {rng.choice(['lock', 'trylock', 'unlock', 'join'])} {rng.choice(ERRNOS)}"); n += 1
+        elif op == 'perr': out(f"{T} perr {rng.choice(PFNS)} {rng.choice(ERRNOS)}"); n += 1
         elif op == 'work':
             kind = rng.randrange(4); size = rng.choice([40, 120, 300]) if not free else rng.choice([200, 600, 1500])
             if kind == 2: size //= 3
@@ -312,7 +314,7 @@ def gen_schedule(rng, nworkers, nevents, mode, flavour, managed=0.0, foreign_mar
 
 def errmap_case():
     ls = ['M sched', 'N 1', '0 spawn 1', '1 begin']
-    for f in ['lock', 'trylock', 'unlock', 'join']:
+    for f in PFNS:
         for e in ERRNOS:
             ls.append(f'0 perr {f} {e}'); ls.append(f'1 perr {f} {e}')
     ls += ['1 end', '0 join 1']
@@ -322,7 +324,7 @@ class C13(Spec):
     id = 'C13'; engine = 'thr'; harness = 'h_thr'; driver = 'drv_thr'
     generators = ('Exn', 'Thr')
     harness_flags = ('-Wl,--wrap=pthread_mutex_lock', '-Wl,--wrap=pthread_mutex_trylock', '-Wl,--wrap=pthread_mutex_unlock',
-                     '-Wl,--wrap=pthread_join', '-Wl,--wrap=malloc', '-Wl,--wrap=calloc')
+                     '-Wl,--wrap=pthread_join', '-Wl,--wrap=malloc', '-Wl,--wrap=calloc', '-Wl,--wrap=pthread_create', '-Wl,--wrap=pthread_kill')
     harness_timeout = 90
     technique = ('Lean 4 proofs by induction over arbitrary schedules of a model of the thread bookkeeping (per-thread components reached only '
                  'through current(Thread) - except by the mark phase, which walks the thread-local table of every collector-managed Thread object it reaches, '
@@ -348,9 +350,9 @@ class C13(Spec):
                   'usable by the joiner iff the thread\'s collector had not finalised it; C13_join_publishes_object_refuted = KF-C13-join-result-finalised: the teardown finalises every object made with plain new; C13_args_partial / C13_args_delivered - an object handed to a thread as an argument (call(x, obj): Thread_Call keeps a raw copy of the tuple, G.args) is read back live by the thread whenever every collection of its owner finds it elsewhere (owner\'s stack, thread-local values, root: decidable ArgsSafe); C13_args_refuted = KF-C13-thread-arg-collected: without that the spawner\'s collector finalises the argument while the thread uses it (full statement C13_args_statement kept); C13_teardown_own / C13_teardown_step / C13_foreign_del - a collector (del, '
                   'collection, the teardown in Thread_Init_Run) only ever finalises objects its own thread allocated; C13_teardown_survives_destructor_exceptions - with the epilogue '
                   'order of the current source (collector before exception record, read from the source on every run) no del, collection or thread teardown ever runs a destructor '
-                  'without the thread\'s exception record (C13_teardown_old_order_refuted: the order before commit 7de4bbc crashes on a 4-event schedule). C13_source_shape_as_modelled, C13_join_repair_in_current_source and '
-                  'C13_error_translation_current_source re-check on every run that the 32 source fragments the model mirrors (Thread_Current, GC_Current, Exception_Current, '
-                  'Thread_Init_Run, Thread_Mark and its instance, Thread_Del, Thread_Assign, the Mark dispatch of GC_Recurse, GC_New/Del, alloc_by/del_by, start_in/stop_in/with, Mutex_*, Thread_Join, the cache macro) and the pthread error translation are the text '
+                  'without the thread\'s exception record (C13_teardown_old_order_refuted: the order before commit 7de4bbc crashes on a 4-event schedule). C13_sync_step_is_translated_primitive (extension round) - in every state the lock/trylock/unlock/join step of the machine IS: test t->thread (join), call the pthread primitive once (pmLock/pmTrylock/pmUnlock/pJoin), look its return value up in the table extracted from Mutex_Lock/Mutex_Trylock/Mutex_Unlock/Thread_Join, raise or return, the Mutex changing hands only on 0 (C13_sync_tables_current_source; OLD join table = OLD variant: C13_sync_step_old_join_variant); C13_trylock_translation / C13_trylock_true_iff_primitive_succeeded - trylock returns true iff the primitive returned 0 (then the caller holds), false iff EBUSY (then nothing changes), raises iff EINVAL; over ALL error codes "true only on success" is refuted (C13_trylock_true_only_on_success_refuted: an unlisted code falls through to return true; unreachable for the default-kind mutexes Mutex_New makes: _partial); C13_join_protocol - for every state of the flags: nothread iff t->thread is 0, joined iff pthread_join returned 0 iff the target finished, was not joined and is not the caller, ResourceError iff self, never early, blocked iff live; C13_create_stop_failure_is_local / C13_stop_create_translation_current_source - a failing pthread_create / pthread_kill under Thread_Call / Thread_Stop raises what the extracted table says in the caller only, no thread comes into being; C13_wrapper_order_current_source - order of flag test, primitive call and err tests, is_running set by the prologue and not cleared by the epilogue, read from the source. C13_source_shape_as_modelled, C13_join_repair_in_current_source and '
+                  'C13_error_translation_current_source re-check on every run that the 36 source fragments the model mirrors (Thread_Current, GC_Current, Exception_Current, '
+                  'Thread_Init_Run, Thread_Mark and its instance, Thread_Del, Thread_Assign, the Mark dispatch of GC_Recurse, GC_New/Del, alloc_by/del_by, start_in/stop_in/with, Mutex_*, Thread_Join, Thread_Stop, Thread_Running, Thread_C_Int, the flag initialisation of Thread_New, the cache macro) and the pthread error translation are the text '
                   'the model was written against. The model is tied to /repo by executing scripted interleavings on real Cello threads (baton) comparing every event outcome, '
                   'and by free-running 2-16 real threads under schedule noise comparing all local outcomes plus digest-vs-solo, ledger, in-section, counter and join oracles.')
     level_note = ('PARTIAL by nature: the theorems are about the bookkeeping (per-thread state is reached only through current(Thread) - frame, join and mutex theorems read back that '
@@ -362,7 +364,7 @@ class C13(Spec):
                   'Trusted: Lean kernel; harness/h_thr.c + lean/Driver/Thr.lean comparison (testing); pthread and libc.')
     rule = ('op files are schedules (tid, op): (a) scripted interleavings (mode sched) of 1-8 workers + main generated by simulating the lock/join machine, including '
             'objects whose destructors do try/throw/catch, Thread objects that are called again after being joined, Thread objects made the documented way by main (newthr: new(Thread, f) kept in a stack '
-            'variable; the maker\'s collections - explicit and the real threshold collections - then walk that worker\'s thread-local table, which in half of the cases holds up to 87 distinct keys and refers to the maker\'s objects), threads that join themselves (ResourceError), result objects handed to the joiner (pubo/rdo), objects handed to a thread as arguments and read back in the thread function (call U K / rdarg I), with blocks left by an exception (wthrow M: the Mutex stays locked by the thread), Thread objects made by workers (newthr by any thread under the baton; a worker returns only after the threads whose Thread objects it holds), deliberately disabled events (blocked lock/join, unlock by a non-holder, ops of unborn/finished threads, reused serials, ill-formed lines), executed on real '
+            'variable; the maker\'s collections - explicit and the real threshold collections - then walk that worker\'s thread-local table, which in half of the cases holds up to 87 distinct keys and refers to the maker\'s objects), threads that join themselves (ResourceError), result objects handed to the joiner (pubo/rdo), objects handed to a thread as arguments and read back in the thread function (call U K / rdarg I), with blocks left by an exception (wthrow M: the Mutex stays locked by the thread), Thread objects made by workers (newthr by any thread under the baton; a worker returns only after the threads whose Thread objects it holds), pthread primitives replaced by a chosen return value (perr F E for F in lock trylock unlock join create stop: the wrapper must make exactly one call of that primitive on the pthread object of the Cello object and translate E as documented), deliberately disabled events (blocked lock/join, unlock by a non-holder, ops of unborn/finished threads, reused serials, ill-formed lines), executed on real '
             'Cello threads in exactly that order; every event outcome is compared with the model; (b) free-running schedules (mode free) of 2-16 real threads with yields/spins '
             'at op boundaries, in malloc/calloc and in the pthread calls: all local outcomes are compared with the model, synchronisation outcomes are masked; workloads '
             '(container-, allocation-, exception-, TLS-heavy) are compared with their solo digests. non-trivial = at least two threads ran and the case contains a contended '
@@ -380,6 +382,7 @@ class C13(Spec):
                    'mutual joins are not generated (glibc 2.36 deadlocks on them instead of reporting EDEADLK)',
                    'KF-C13-thread-arg-collected: objects handed to a thread as arguments (call U K) are kept reachable by their owner - roots, or objects main keeps on its stack in every collection and never deletes (the driver\'s `arg-unsafe` count, the steps outside the hypothesis ArgsSafe, is checked to be 0 on every generated case)',
                    'an uncaught exception in a worker ends the whole process (Exception_Error -> exit): a plain counter-example to "never diverts another thread\'s control flow", by design of the library; not generated',
+                   'stop(x) is exercised only with pthread_kill replaced (perr stop E): the real call sends SIGINT, whose default action ends the whole process (signals are outside the model); running(x) / c_int(x) / hash / cmp of a Thread object are pinned text only (is_running is never cleared: running(x) stays true after join - C13_wrapper_order_current_source records it)',
                    'not modelled: Thread_Assign / copy of a Thread object, Thread objects as thread-local values, set(x, key, v) on a Thread object other than current(Thread) (the keep layer of C18 has it), mutual joins')
     def cases(self, rng, tier, boost=1):
         quick = tier == 'quick'
@@ -419,6 +422,14 @@ class C13(Spec):
             for kv in l.split():
                 for key in ('races=', 'not-isolated=', 'walk-decides=', 'arg-unsafe=', 'managed='):
                     if kv.startswith(key) and kv[len(key):].isdigit(): acc['model_' + key[:-1]] = acc.get('model_' + key[:-1], 0) + int(kv[len(key):])
+        for l in case.lines:
+            p = l.split()
+            if len(p) == 4 and p[1] == 'perr': acc[f'perr_{p[2]}_{p[3]}'] = acc.get(f'perr_{p[2]}_{p[3]}', 0) + 1
+        # which branch of flag test / primitive each synchronisation event took in the model (Cello/ThreadsSync.lean `syncBranch`)
+        for l in core.lines_with('I sync-branches', m_out):
+            for kv in l.split()[2:]:
+                k, _, v = kv.partition('=')
+                if v.isdigit(): acc['branch_' + k] = acc.get('branch_' + k, 0) + int(v)
         for l in core.lines_with('I ', c_out):
             for kv in l.split():
                 if kv.startswith('workers='): acc['max_workers'] = max(acc.get('max_workers', 0), int(kv[8:]))
@@ -441,6 +452,7 @@ class C13(Spec):
     def model_selfcheck(self, case, m_out):
         for l in core.lines_with('S ', m_out):
             if 'exclusion=false' in l: return f'the model run violates mutual exclusion on its own trace: {l}'
+            if 'sync-layer-diff=' in l and 'sync-layer-diff=0' not in l: return f'a synchronisation event executed as extracted table applied to the primitive (syncStep) differs from the machine (step): {l}'
         return None
 
 SPEC = C13()
